@@ -135,38 +135,50 @@ class Recorder:
         if kind == "source":
             iat = Draws(self, "draw", cfg["iat"])
             n = object.__new__(Source); reg(n)
+            kw, after = self._late(cfg, dict(out_edge_selection=self._policy(cfg.get("out", "FIRST_AVAILABLE"))))
             Source.__init__(n, self.env, f"N{i}", inter_arrival_time=iat, blocking=cfg.get("blocking", True),
-                            out_edge_selection=self._policy(cfg.get("out", "FIRST_AVAILABLE")),
-                            flow_item_type=cfg.get("item_type", "item"))
+                            flow_item_type=cfg.get("item_type", "item"), **kw)
+            for k, v in after.items(): setattr(n, k, v)
         elif kind == "sink":
             n = object.__new__(Sink); reg(n)
             Sink.__init__(n, self.env, f"N{i}")
         elif kind == "machine":
             pd = Draws(self, "draw", cfg["pd"])
             n = object.__new__(Machine); reg(n)
+            kw, after = self._late(cfg, dict(in_edge_selection=self._policy(cfg.get("inp", "FIRST_AVAILABLE")),
+                                             out_edge_selection=self._policy(cfg.get("out", "FIRST_AVAILABLE"))))
             Machine.__init__(n, self.env, f"N{i}", node_setup_time=t2f(cfg.get("setup", 0)),
-                             work_capacity=cfg.get("wc", 1), processing_delay=pd, blocking=cfg.get("blocking", True),
-                             in_edge_selection=self._policy(cfg.get("inp", "FIRST_AVAILABLE")),
-                             out_edge_selection=self._policy(cfg.get("out", "FIRST_AVAILABLE")))
+                             work_capacity=cfg.get("wc", 1), processing_delay=pd, blocking=cfg.get("blocking", True), **kw)
+            for k, v in after.items(): setattr(n, k, v)
         elif kind == "combiner":
             pd = Draws(self, "draw", cfg["pd"])
             n = object.__new__(Combiner); reg(n)
             Combiner.__init__(n, self.env, f"N{i}", node_setup_time=t2f(cfg.get("setup", 0)),
                               target_quantity_of_each_item=list(cfg.get("target", [1])), processing_delay=pd,
                               blocking=cfg.get("blocking", True),
-                              out_edge_selection=self._policy(cfg.get("out", "FIRST_AVAILABLE")))
+                              **(lk := self._late(cfg, dict(out_edge_selection=self._policy(cfg.get("out", "FIRST_AVAILABLE")))))[0])
+            for k, v in lk[1].items(): setattr(n, k, v)
         elif kind == "splitter":
             pd = Draws(self, "draw", cfg["pd"])
             n = object.__new__(Splitter); reg(n)
             extra = {"split_quantity": cfg["split_quantity"]} if cfg.get("split_quantity") is not None else {}   # ignored in UNPACK mode (documented)
             Splitter.__init__(n, self.env, f"N{i}", node_setup_time=t2f(cfg.get("setup", 0)), processing_delay=pd,
                               blocking=cfg.get("blocking", True), **extra,
-                              in_edge_selection=self._policy(cfg.get("inp", "FIRST_AVAILABLE")),
-                              out_edge_selection=self._policy(cfg.get("out", "FIRST_AVAILABLE")))
+                              **(lk := self._late(cfg, dict(in_edge_selection=self._policy(cfg.get("inp", "FIRST_AVAILABLE")),
+                                                            out_edge_selection=self._policy(cfg.get("out", "FIRST_AVAILABLE")))))[0])
+            for k, v in lk[1].items(): setattr(n, k, v)
         else:
             raise ValueError(kind)
         self.nodes.append((kind, n, cfg))
         return i
+
+    def _late(self, cfg, kw):
+        """`late` policies: the node is constructed with the library defaults (or None for a Source, as its reset() documents) and the
+        selection policies are assigned to the attributes afterwards, before the run — the models and the judges see the same policies"""
+        if not cfg.get("late"): return kw, {}
+        after = {k: kw.pop(k) for k in ("in_edge_selection", "out_edge_selection") if k in kw}
+        if cfg["late"] == "none" and "out_edge_selection" in after and "in_edge_selection" not in after: kw["out_edge_selection"] = None
+        return kw, after
 
     def _policy(self, p):
         if isinstance(p, (list, tuple)):      # user callable with scripted answers
